@@ -74,6 +74,9 @@ type Mon struct {
 	// meets already-exists.
 	RaceNode int
 	raced    bool
+	// SlowNode holds extra latency for the destination push of particular
+	// nodes (a slow sibling keeps a failure elsewhere from propagating at once).
+	SlowNode map[int]time.Duration
 	// latency injection
 	DelaySeed uint64
 	DelayMax  time.Duration // 0: no sleeping, only Gosched bursts
@@ -120,6 +123,11 @@ func (m *Mon) delay(op string, node int) {
 	}
 	if m.DelayMax > 0 && (v>>8)%3 != 0 {
 		time.Sleep(time.Duration((v >> 16) % uint64(m.DelayMax)))
+	}
+	if op == "dst.Push" {
+		if d, ok := m.SlowNode[node]; ok {
+			time.Sleep(d)
+		}
 	}
 }
 
